@@ -85,19 +85,31 @@ struct Cursor {
     valid: bool,
     chain: bool,
     last_danger: u32,
+    last_lb: u32,
+    term_by_seek: bool,
 }
 
 /// Executes one program; `prog` gives the operations and their (clamped) targets.
-fn run_prog(sc: &mut Box<dyn Scorer>, prog: &[Value], scoring: bool) -> Vec<Value> {
+/// `avoid_bitset`: steer around the recorded finding "BitSetDocSet::advance after a seek past the end".
+#[derive(Clone, Copy, Default)]
+struct Avoid {
+    bitset: bool,
+    union_fill: bool,
+    inter_count: bool,
+}
+
+fn run_prog(sc: &mut Box<dyn Scorer>, prog: &[Value], scoring: bool, avoid: Avoid) -> Vec<Value> {
+    let (avoid_bitset, avoid_union_fill) = (avoid.bitset, avoid.union_fill);
+    let mut score_tainted = false;
     let mut out = vec![];
-    let mut cur = Cursor { valid: true, chain: false, last_danger: 0 };
+    let mut cur = Cursor { valid: true, chain: false, last_danger: 0, last_lb: 0, term_by_seek: false };
     for c in prog {
         let op = c["op"].as_str().unwrap().to_string();
         let arg = c.get("t").or_else(|| c.get("min")).and_then(|x| x.as_u64()).unwrap_or(0) as u32;
         let res = catch_unwind(AssertUnwindSafe(|| -> Option<Value> {
             let mut rec = match op.as_str() {
                 "advance" => {
-                    if !cur.valid {
+                    if !cur.valid || (avoid_bitset && cur.term_by_seek && sc.doc() == TERMINATED) {
                         return None;
                     }
                     let r = sc.advance();
@@ -124,6 +136,10 @@ fn run_prog(sc: &mut Box<dyn Scorer>, prog: &[Value], scoring: bool) -> Vec<Valu
                         }
                         t = cur.last_danger + 1;
                     }
+                    // like every caller in tantivy, continue a chain at or after the lower bound
+                    if cur.chain && !cur.valid {
+                        t = t.max(cur.last_lb);
+                    }
                     let r = sc.seek_danger(t);
                     cur.chain = true;
                     cur.last_danger = t;
@@ -134,6 +150,7 @@ fn run_prog(sc: &mut Box<dyn Scorer>, prog: &[Value], scoring: bool) -> Vec<Valu
                         }
                         SeekDangerResult::SeekLowerBound(lb) => {
                             cur.valid = false;
+                            cur.last_lb = lb.min(TERMINATED);
                             json!({"op":"seek_danger","t":t,"found":false,"lb":lb.min(TERMINATED)})
                         }
                     }
@@ -145,6 +162,9 @@ fn run_prog(sc: &mut Box<dyn Scorer>, prog: &[Value], scoring: bool) -> Vec<Valu
                     let mut buf = [0u32; 64];
                     let n = sc.fill_buffer(&mut buf);
                     cur.chain = false;
+                    if avoid_union_fill {
+                        score_tainted = true;
+                    }
                     json!({"op":"fill_buffer","ret":buf[..n].to_vec()})
                 }
                 "fill_bitset_block" => {
@@ -167,7 +187,7 @@ fn run_prog(sc: &mut Box<dyn Scorer>, prog: &[Value], scoring: bool) -> Vec<Valu
                     json!({"op":"fill_bitset_block","min":m,"mask":docs,"ret":r})
                 }
                 "count" => {
-                    if !cur.valid {
+                    if !cur.valid || avoid.inter_count {
                         return None;
                     }
                     let n = sc.count_including_deleted();
@@ -178,9 +198,20 @@ fn run_prog(sc: &mut Box<dyn Scorer>, prog: &[Value], scoring: bool) -> Vec<Valu
             };
             if cur.valid {
                 let d = sc.doc();
+                if d == TERMINATED {
+                    if op != "advance" && op != "fill_buffer" && op != "count" {
+                        cur.term_by_seek = true;
+                    }
+                } else {
+                    cur.term_by_seek = false;
+                }
                 rec["doc_after"] = json!(d);
-                if scoring && d != TERMINATED {
-                    rec["score"] = json!(bits(sc.score()));
+                if scoring && d != TERMINATED && !score_tainted {
+                    // doc() names a document: reading its score is legal
+                    match catch_unwind(AssertUnwindSafe(|| sc.score())) {
+                        Ok(x) => rec["score"] = json!(bits(x)),
+                        Err(e) => rec["score_panic"] = json!(panic_msg(e)),
+                    }
                 }
             }
             Some(rec)
@@ -220,7 +251,7 @@ fn enumerate(w: &dyn Weight, sr: &tantivy::SegmentReader, scoring: bool) -> Resu
 }
 
 fn run_scorer_case(tracer: &Tracer, w: &dyn Weight, sr: &tantivy::SegmentReader, seg: usize, q: &Value, scoring: bool,
-                   progs: &[Vec<Value>], extra: &Value) {
+                   progs: &[Vec<Value>], extra: &Value, avoid: Avoid) {
     let n = qlib::leaves(q);
     match enumerate(w, sr, scoring) {
         Err(msg) => {
@@ -233,7 +264,7 @@ fn run_scorer_case(tracer: &Tracer, w: &dyn Weight, sr: &tantivy::SegmentReader,
                 let rec = match catch_unwind(AssertUnwindSafe(|| w.scorer(sr, 1.0))) {
                     Ok(Ok(mut sc)) => {
                         let mut rec = vec![json!({"op":"init","ret":sc.doc()})];
-                        rec.extend(run_prog(&mut sc, p, scoring));
+                        rec.extend(run_prog(&mut sc, p, scoring, avoid));
                         rec
                     }
                     Ok(Err(e)) => vec![json!({"op":"panic","in":"scorer","msg":e.to_string()})],
@@ -264,21 +295,49 @@ fn weight_of(index: &Index, schema: &Schema, q: &Value, scoring: bool) -> Result
     Ok((w, searcher))
 }
 
+/// the multi-segment index of the T direction: deterministic in (seed, ndocs)
+fn rich_index(seed: u64, ndocs: usize, bigseg: bool) -> (Index, Schema, Value, StdRng) {
+    let mut rng = StdRng::seed_from_u64(seed);
+    let schema = qlib::rich_schema();
+    let docs = qlib::gen_corpus(&mut rng, ndocs, false);
+    let nseg = rng.random_range(1..=5usize);
+    let mut cuts: Vec<usize> = (0..nseg - 1).map(|_| rng.random_range(1..ndocs)).collect();
+    cuts.sort();
+    if bigseg {
+        cuts = vec![ndocs.saturating_sub(40)];
+    }
+    let deleted: Vec<u64> = (0..ndocs / 25).map(|_| rng.random_range(0..ndocs as u64)).collect();
+    let index = qlib::build_index(&schema, &docs, &cuts, &deleted, false).expect("index");
+    let info = json!({"seed":seed,"docs":ndocs,"cuts":cuts,"deleted":deleted.len()});
+    (index, schema, info, rng)
+}
+
 fn stripes(a: &Args, tracer: &Tracer) {
     let f = std::fs::File::open(a.get("in", "")).expect("open --in");
     let mut idx: HashMap<u32, (Index, Schema)> = HashMap::new();
-    tracer.emit(json!({"ev":"reset","mode":"stripes"}));
+    let mut rich: HashMap<String, (Index, Schema)> = HashMap::new();
+    let avoid = !a.flag("no-avoid");
+    tracer.emit(json!({"ev":"reset","mode":"cases"}));
     for line in std::io::BufReader::new(f).lines() {
         let line = line.unwrap();
         if line.trim().is_empty() {
             continue;
         }
         let c: Value = serde_json::from_str(&line).expect("case json");
-        let r = c["r"].as_u64().unwrap() as u32;
-        if !idx.contains_key(&r) {
-            idx.insert(r, stripe_index(r).expect("stripe index"));
-        }
-        let (index, schema) = idx.get(&r).unwrap();
+        let (index, schema) = if let Some(rc) = c.get("rich") {
+            let key = rc.to_string();
+            if !rich.contains_key(&key) {
+                let (i, s, _, _) = rich_index(rc["seed"].as_u64().unwrap(), rc["docs"].as_u64().unwrap() as usize, rc["bigseg"].as_bool().unwrap_or(false));
+                rich.insert(key.clone(), (i, s));
+            }
+            rich.get(&key).unwrap()
+        } else {
+            let r = c["r"].as_u64().unwrap() as u32;
+            if !idx.contains_key(&r) {
+                idx.insert(r, stripe_index(r).expect("stripe index"));
+            }
+            idx.get(&r).unwrap()
+        };
         let scoring = c["scoring"].as_bool().unwrap_or(true);
         let progs: Vec<Vec<Value>> = c["progs"].as_array().unwrap().iter().map(|p| p.as_array().unwrap().clone()).collect();
         let mut extra = json!({"abs": c["abs"], "recipe": c["recipe"]});
@@ -287,8 +346,10 @@ fn stripes(a: &Args, tracer: &Tracer) {
         }
         match weight_of(index, schema, &c["q"], scoring) {
             Ok((w, searcher)) => {
+                let av = Avoid { bitset: avoid && qlib::has_bitset_leaf(schema, &c["q"]), union_fill: avoid && qlib::has_union(&c["q"]),
+                                 inter_count: avoid && qlib::may_be_intersection(&c["q"]) };
                 for (ord, sr) in searcher.segment_readers().iter().enumerate() {
-                    run_scorer_case(tracer, w.as_ref(), sr, ord, &c["q"], scoring, &progs, &extra);
+                    run_scorer_case(tracer, w.as_ref(), sr, ord, &c["q"], scoring, &progs, &extra, av);
                 }
             }
             Err(e) => {
@@ -390,21 +451,19 @@ fn random(a: &Args, tracer: &Tracer) {
     let nprogs = a.num("progs", 6) as usize;
     let maxlen = a.num("maxlen", 25) as usize;
     let depth = a.num("depth", 2) as u32;
-    let mut rng = StdRng::seed_from_u64(seed);
-    let schema = qlib::rich_schema();
-    let docs = qlib::gen_corpus(&mut rng, ndocs, false);
-    let nseg = rng.random_range(1..=5usize);
-    let mut cuts: Vec<usize> = (0..nseg - 1).map(|_| rng.random_range(1..ndocs)).collect();
-    cuts.sort();
-    if a.flag("bigseg") {
-        cuts = vec![ndocs.saturating_sub(40)];
-    }
-    let deleted: Vec<u64> = (0..ndocs / 25).map(|_| rng.random_range(0..ndocs as u64)).collect();
-    let index = qlib::build_index(&schema, &docs, &cuts, &deleted, false).expect("index");
-    tracer.emit(json!({"ev":"reset","mode":"random","seed":seed,"docs":ndocs,"cuts":cuts,"deleted":deleted.len()}));
+    let (index, schema, info, mut rng) = rich_index(seed, ndocs, a.flag("bigseg"));
+    let avoid = !a.flag("no-avoid");
+    tracer.emit(json!({"ev":"reset","mode":"random","index":info}));
     let opts = qlib::GenOpts::all(depth);
-    for qi in 0..nq {
+    let mut qi = 0;
+    let mut tries = 0;
+    while qi < nq && tries < nq * 20 {
+        tries += 1;
         let q = qlib::gen_query(&mut rng, depth, &opts);
+        if avoid && qlib::has_phrase_under_mustnot(&q) {
+            continue;
+        }
+        qi += 1;
         let scoring = rng.random_bool(0.6);
         let (w, searcher) = match weight_of(&index, &schema, &q, scoring) {
             Ok(x) => x,
@@ -419,18 +478,21 @@ fn random(a: &Args, tracer: &Tracer) {
                 Err(_) => (vec![], vec![]),
             };
             let progs: Vec<Vec<Value>> = (0..nprogs).map(|_| gen_prog(&mut rng, &seq, sr.max_doc(), maxlen, !a.flag("stop-at-count"))).collect();
-            run_scorer_case(tracer, w.as_ref(), sr, ord, &q, scoring, &progs, &json!({"qi":qi}));
+            run_scorer_case(tracer, w.as_ref(), sr, ord, &q, scoring, &progs, &json!({"qi":qi}),
+                            Avoid { bitset: avoid && qlib::has_bitset_leaf(&schema, &q), union_fill: avoid && qlib::has_union(&q), inter_count: avoid && qlib::may_be_intersection(&q) });
         }
     }
 }
 
 fn main() {
-    std::panic::set_hook(Box::new(|_| {}));
+    if std::env::var("VERIF_PANIC_TRACE").is_err() {
+        std::panic::set_hook(Box::new(|_| {}));
+    }
     let a = Args::parse();
     let mode = a.pos.first().cloned().unwrap_or_default();
     let tracer = Tracer::to_file(&a.get("out", "/dev/stdout"));
     match mode.as_str() {
-        "stripes" => stripes(&a, &tracer),
+        "stripes" | "cases" => stripes(&a, &tracer),
         "random" => random(&a, &tracer),
         _ => {
             eprintln!("usage: docset_driver stripes|random ...");
